@@ -62,6 +62,22 @@ Example order_rejected :
   flat_complaints (check_program (mini mini_order_bad) mini_order_bad ["Send"; "RemoveNode"; "Set"] [] []) = [("Set", KLockOrder, L)].
 Proof. vm_compute. reflexivity. Qed.
 
+(* check-then-act: looking the map up under the read lock, releasing, then creating under the write lock without looking
+   again is rejected; re-reading in the write section is accepted (seeded mutant C04-1) *)
+Definition create_stale : prog :=
+  PSeq (PAct (Acq L MR)) (PSeq (PAct (Rd "Broker.nodes")) (PSeq (PAct (Rel L MR))
+  (PSeq (PAct (Acq L MW)) (PSeq (PDefer (Rel L MW)) (PSeq (PAlt (PAct (Wr "Broker.nodes")) PSkip) PRet))))).
+Definition create_fresh : prog :=
+  PSeq (PAct (Acq L MR)) (PSeq (PAct (Rd "Broker.nodes")) (PSeq (PAct (Rel L MR))
+  (PSeq (PAct (Acq L MW)) (PSeq (PDefer (Rel L MW)) (PSeq (PAct (Rd "Broker.nodes")) (PSeq (PAlt (PAct (Wr "Broker.nodes")) PSkip) PRet)))))).
+Example cta_rejected :
+  flat_complaints (cta_program (mini [("Create", create_stale)]) [("Create", create_stale)]) = [("Create", KCheckThenAct, "Broker.nodes")].
+Proof. vm_compute. reflexivity. Qed.
+Example cta_accepted : cta_program (mini [("Create", create_fresh)]) [("Create", create_fresh)] = [].
+Proof. vm_compute. reflexivity. Qed.
+Example cta_stale_still_guarded : check_program (mini [("Create", create_stale)]) [("Create", create_stale)] ["Create"] [] [] = [].
+Proof. vm_compute. reflexivity. Qed.
+
 Definition fenv_good := fenv_of (reachable mini_good ["Send"; "RemoveNode"]).
 Lemma fenv_good_remove : fenv_good "RemoveNode" = Some remove_good. Proof. vm_compute. reflexivity. Qed.
 Lemma fenv_good_send : fenv_good "Send" = Some send_body. Proof. vm_compute. reflexivity. Qed.
